@@ -2108,6 +2108,7 @@ func (c S3ApiController) PutActions(ctx *fiber.Ctx) error {
 				Bucket:        bucket,
 				Object:        keyStart,
 				Action:        auth.PutObjectAction,
+				Readonly:      c.readonly,
 			})
 		if err != nil {
 			return SendXMLResponse(ctx, nil, err,
@@ -2448,6 +2449,7 @@ func (c S3ApiController) PutActions(ctx *fiber.Ctx) error {
 				Bucket:        bucket,
 				Object:        keyStart,
 				Action:        auth.PutObjectAction,
+				Readonly:      c.readonly,
 			})
 		if err != nil {
 			return SendXMLResponse(ctx, nil, err,
